@@ -4,7 +4,7 @@ import itertools
 from .. import world as _w   # installs the virtual clock (strictly increasing reads)
 from ..refmodels.process_ref import ProcessRef, STOPPED, STARTING, RUNNING, BACKOFF, STOPPING, EXITED, FATAL, UNKNOWN
 from ..report import Outcome, tier, seed
-from ..seq import Spec, run_specs, rebuild
+from ..seq import Spec, run_specs, rebuild, checked_apply
 
 from supvisors.process import ProcessStatus, ProcessRules
 
@@ -208,7 +208,7 @@ def main():
             # confirm twice from scratch
             for _ in range(2):
                 st = rebuild(spec, hist[:-1])
-                errs = spec.apply(st, hist[-1])
+                errs = checked_apply(spec, st, hist[-1])
                 assert v['signature'] in [e['signature'] for e in errs], 'violation did not reproduce'
             out.report(v, {'driver': 'C11', 'config': {'ids': ids}, 'events': [list(o) for o in hist]})
     cov['rule'] = ('product BFS of the real ProcessStatus and the reference model over every sequence of snapshots '
@@ -227,7 +227,7 @@ def replay(payload):
     spec = ProcessSpec(payload['config']['ids'])
     hist = [tuple(o) for o in payload['events']]
     st = rebuild(spec, hist[:-1])
-    errs = spec.apply(st, hist[-1])
+    errs = checked_apply(spec, st, hist[-1])
     print('history:', hist)
     print('oracle:', errs)
     if payload.get('signature') in [e['signature'] for e in errs]:
